@@ -139,22 +139,28 @@ func writeSession(p *rtmp.Protocol, ms []rmsg) string {
 }
 
 // readSession reads up to k messages; returns those read (canonical), status and final in-chunk size.
+// The messages are HELD until the whole sequence has been read and only then rendered: an application
+// that queues or relays messages must still find every earlier message intact after later reads.
 func readSession(p *rtmp.Protocol, k int) ([]string, string) {
-	var got []string
+	var held []*rtmp.Message
 	status := h.Safe(func() string {
 		for i := 0; i < k; i++ {
 			m, err := p.ReadMessage()
 			if err != nil {
 				return errClass(err)
 			}
-			cid, ty, sid, ts, plen := rtmp.VerifMessageFields(m)
-			if int(plen) != len(m.Payload) {
-				return "bad-length-field"
-			}
-			got = append(got, fmt.Sprintf("%d.%d.%d.%d.%s", cid, ty, sid, ts, h.Hex(m.Payload)))
+			held = append(held, m)
 		}
 		return "ok"
 	})
+	var got []string
+	for _, m := range held {
+		cid, ty, sid, ts, plen := rtmp.VerifMessageFields(m)
+		if int(plen) != len(m.Payload) {
+			return got, "bad-length-field"
+		}
+		got = append(got, fmt.Sprintf("%d.%d.%d.%d.%s", cid, ty, sid, ts, h.Hex(m.Payload)))
+	}
 	return got, status
 }
 
@@ -253,7 +259,7 @@ func c01(c *h.Ctx) {
 
 	// fixed regression inputs of repaired defects (F17, F3)
 	regress := [][]rmsg{
-		{{cid: 5, ty: 9, sid: 1, ts: 0, payload: h.LCGBytes(129, 7), desc: "p:129:7"}},                                                                     // F17
+		{{cid: 5, ty: 9, sid: 1, ts: 0, payload: h.LCGBytes(129, 7), desc: "p:129:7"}},                                                                                  // F17
 		{{cid: 2, ty: 1, sid: 0, ts: 0, payload: []byte{0, 0, 16, 0}, desc: "00001000"}, {cid: 5, ty: 9, sid: 1, ts: 40, payload: h.LCGBytes(200, 9), desc: "p:200:9"}}, // F3
 		{{cid: 7, ty: 9, sid: 1, ts: 0xFFFFFF, payload: h.LCGBytes(300, 3), desc: "p:300:3"}},
 	}
